@@ -196,7 +196,7 @@ def run(prop, tier):
         raise NoVerdict("the harness recorded %d case events for %d cases" % (n_case, len(cases)))
     if n_rand < want_b:
         raise NoVerdict("the random drivers recorded %d events, %d planned" % (n_rand, want_b))
-    if not ok_case or not ok_rand:
+    if (not ok_case or not ok_rand) and not verdict.violations and not verdict.known:
         raise NoVerdict("vacuous run: no call of the real code succeeded")
     log("[verdict] events rejected by %s_Step: %d replayed cases, %d random events; strict-only deviations: %d" % (prop, n_a, n_b, len(drift)))
     for d in drift[:5]:
